@@ -299,6 +299,32 @@ theorem c03_documented_values_partial (r : Run) (k : Nat) (h : r.warmup ≠ .non
 
 example : (Val.int 0) ≠ Val.none := by decide
 
+/-! ## "it runs in the suite's location (else the executor's path)" -/
+
+/-- The working directory is a function of the run's *own* suite and executor: the suite's
+location if it has one, else the path of the executor the run is executed with — made
+absolute unless it starts with `~`, placeholders of the run substituted, `~` expanded.  In
+particular a suite without a location that is shared by several executors runs, for each of
+them, in that executor's path. -/
+theorem c03_cwd_rule (w : World) (r : Run) (c : Nat) (l : Launch) (h : launch w r c = .ok l) :
+    ∃ loc, location w.cwd r = some loc ∧ l.cwd = loc.map (expanduser w) ∧
+      r.locationCfg w.cwd =
+        compilePath w.cwd (if r.hasLocation then r.locationRaw else compilePath w.cwd r.pathRaw) := by
+  simp only [launch] at h
+  split at h
+  · rename_i t loc _ hloc
+    simp only [Res.ok.injEq] at h
+    exact ⟨loc, hloc, by subst h; rfl, rfl⟩
+  · cases h
+
+/-- two runs of the same suite (no location) with different executors: each in its own path -/
+example :
+    let r1 : Run := ⟨['B'], .none, .none, .none, .none, ['E'], ['S'], .none, .none, some ['/', 'a'],
+      ['e'], none, ['h'], none, false, none, [], 1, .plain⟩
+    let r2 : Run := { r1 with executorName := ['F'], pathRaw := some ['/', 'b'] }
+    location ['/', 'w'] r1 = some (some ['/', 'a']) ∧ location ['/', 'w'] r2 = some (some ['/', 'b']) := by
+  decide
+
 /-! ## "sees exactly the configured env variables, none inherited from ReBench's own environment" -/
 
 /-- Two ReBench processes whose environments differ arbitrarily — except for
